@@ -42,11 +42,26 @@ def runGlif (inp obs : List String) : Verdict :=
     let fmt := (field obs "fmt").getD "?"
     let p2 := (field obs "p2").getD "?"
     let fix := (field obs "fix").getD "?"
+    let n1 := (field obs "n1").getD "?"
+    let n2 := (field obs "n2").getD "?"
+    let ax := (field obs "ax").getD "-"
+    let cdNote := x.startsWith "cdata-note"
+    -- a CDATA note: the recorded behaviour is "the note is dropped at the first load" (n1 = none, everything else as
+    -- written).  A CDATA note that is KEPT and differs from what the document says, or that changes in the second
+    -- round, is a different failure (other feature / other rule) and never matches the recorded finding.
+    let alteredFeat :=
+      if cdNote then
+        (if n1 = "~" && ax = "1" then x else if n1 = "~" then x ++ ",other-fields" else x ++ "-kept")
+      else x
     let spec :=
-      (if a = "0" then ["glif-altered:" ++ x] else []) ++
+      (if a = "0" then ["glif-altered:" ++ alteredFeat] else []) ++
       (if enc ≠ "ok" then ["glif-not-writable:" ++ x]
        else (if fmt ≠ "2" then ["glif-format:" ++ x] else []) ++
-            (if p2 ≠ "ok" then ["glif-not-reloadable:" ++ x] else if fix ≠ "1" then ["glif-fixed-point:" ++ x] else []))
+            (if p2 ≠ "ok" then ["glif-not-reloadable:" ++ x]
+             else if fix ≠ "1" then
+               (if n1 ≠ n2 && n1 ≠ "?" then ["l2-differs:" ++ (if cdNote then x ++ "-kept" else x) ++ ",note"]
+                else ["glif-fixed-point:" ++ x])
+             else []))
     -- the model of this level is the expectation itself: accepted, unaltered, writable, format 2, fixed point
     { agree := true, spec := spec ++ semSpec,
       tags := tags ++ (if kind = "mutglif" then (mc.splitOn "+").map ("mut-" ++ ·) else []), model := "ok" }
@@ -64,12 +79,15 @@ def run (inp obs : List String) : Verdict :=
   let ver := (field inp "v").getD "t"
   let l1 := (field first "l1").getD "?"
   let baseTags := [kind, "ufo-v" ++ ver, "target-" ++ (field inp "t").getD "absent"] ++
+    (match field inp "cd" with | some part => ["cdata-" ++ part] | none => []) ++
     (if kind = "edit" then ["edited-after-load"] else [])
   if l1 = "panic" then { agree := false, spec := ["load-panic"], tags := baseTags, model := "-" }
   else if l1 ≠ "ok" then
     -- not accepted: outside the property (testdata holds deliberately broken trees; generated trees must load)
     -- legacy trees may be refused by the kerning-group upconversion (overlapping groups after renaming: C15)
-    { agree := kind = "testdata" || kind = "mutufo" || (ver ≠ "3" && l1 = "err:GroupsUpconversionFailure"),
+    -- a tagged CDATA tree may be refused once the dropped text leaves an invalid value (empty date, empty colour)
+    { agree := kind = "testdata" || kind = "mutufo" || (ver ≠ "3" && l1 = "err:GroupsUpconversionFailure") ||
+        (field inp "cd").isSome,
       spec := semSpec, tags := baseTags ++ ["rejected"] ++ mutTags, model := "accepted" }
   else
     let pre := (field first "pre").getD ""
@@ -88,7 +106,11 @@ def run (inp obs : List String) : Verdict :=
         | some want, some got =>
           ((specFont want got pre pre true) ++
             (if want.creator = got.creator && want.minor = got.minor then [] else ["metainfo"])).map
-            fun r => "accepted-altered:" ++ clean r
+            fun r => (match field inp "cd" with
+              -- tagged trees: text nodes of one part are CDATA sections; what the first load drops of them is the
+              -- recorded behaviour (the plist reader skips CDATA inside <string>/<key>, parse_note ignores it)
+              | some part => "cdata-dropped:part-" ++ part ++ "," ++ clean r
+              | none => "accepted-altered:" ++ clean r)
         | _, _ => ["accepted-altered:shape"]
       else []
     let objKey := match parseFont l1toks pre with
